@@ -12,6 +12,9 @@ from ..dataflow import reaching, loop_carried, value_sources
 from ..expr import Translator, equal, forward_substitute
 from ..model import AnalysisError, Program, norm_key, parent_of
 from ..report import Checker
+from ..pathtable import PathTable, Leaf, literals, same_rel, same_literal_set, flatten_cases, assigned_names, negate
+from ..resolve import Resolver, canon
+from ..astutil import bind_call
 
 EXPLANATION = (
     "CFG pairing, slicing and formula rules over the six loop kernels and the Savitzky-Golay pair of "
@@ -53,15 +56,31 @@ def run(ck: Checker, prog: Program, tier: str):
     ck.guard(_registry, ck, prog)
 
 
-def _loops(f):
-    outer = [st for st in f.node.body if isinstance(st, ast.For)]
-    if len(outer) != 1:
-        raise AnalysisError(f"{f.qualname}: expected one loop over the centre frequencies")
-    o = outer[0]
-    inner = [st for st in o.body if isinstance(st, ast.For)]
-    if len(inner) != 1:
-        raise AnalysisError(f"{f.qualname}: expected one inner loop over the frequencies")
-    return o, inner[0]
+def _single_loop(stmts, what, q):
+    loops = [st for st in stmts if isinstance(st, ast.For)]
+    if len(loops) != 1:
+        raise AnalysisError(f"{q}: expected one loop over the {what}, found {len(loops)}")
+    return loops[0]
+
+
+def _header(loop: ast.For, seq: str, q: str, env: Dict[str, sp.Expr], idx_sym: sp.Expr, val_sym: sp.Expr):
+    """Bind the index and the element of `for i, x in enumerate(seq)` / `for i in range(len(seq))`.
+    Returns (index name, whether every element is visited)."""
+    it = loop.iter
+    if isinstance(it, ast.Call) and call_name(it) == "enumerate" and len(it.args) == 1 and unparse(it.args[0]) == seq \
+            and isinstance(loop.target, ast.Tuple) and len(loop.target.elts) == 2 and all(isinstance(e, ast.Name) for e in loop.target.elts):
+        env[loop.target.elts[0].id] = idx_sym
+        env[loop.target.elts[1].id] = val_sym
+        return loop.target.elts[0].id, True
+    if isinstance(it, ast.Call) and call_name(it) == "range" and isinstance(loop.target, ast.Name):
+        env[loop.target.id] = idx_sym
+        env[f"{seq}[{loop.target.id}]"] = val_sym
+        T = Translator(env=env)
+        args = [T.tr(a) for a in it.args]
+        n_all = {sp.Function("len")(T.sym(seq)), T.sym(f"{seq}.size"), sp.Function("getitem")(T.sym(f"{seq}.shape"), sp.Integer(0))}
+        full = (len(args) == 1 and args[0] in n_all) or (len(args) == 2 and args[0] == 0 and args[1] in n_all)
+        return loop.target.id, full
+    raise AnalysisError(f"{q}: loop header `{norm_key(loop, 60)}` is not enumerate({seq}) / range(len({seq}))")
 
 
 def _kernel(ck: Checker, prog: Program, name: str):
@@ -69,90 +88,126 @@ def _kernel(ck: Checker, prog: Program, name: str):
     q = f.qualname
     if f.params[:4] != ["frequencies", "spectrum", "fcs", "bandwidth"]:
         ck.violation("C02.R6", q, "signature", f"signature {f.params}", loc=f.loc())
-    o, i = _loops(f)
-    cfg = cfg_of(f)
-    if unparse(o.iter) != "enumerate(fcs)":
-        raise AnalysisError(f"{q}: outer loop is not enumerate(fcs)")
-    fc_index, fc = [unparse(e) for e in o.target.elts]
-    if unparse(i.iter) == "enumerate(frequencies)" and isinstance(i.target, ast.Tuple):
-        f_index, fr = [unparse(e) for e in i.target.elts]
-    elif isinstance(i.iter, ast.Call) and call_name(i.iter) == "range" and isinstance(i.target, ast.Name):
-        f_index = i.target.id
-        d = [st for st in i.body if isinstance(st, ast.Assign) and unparse(st.value) == f"frequencies[{f_index}]"]
-        if not d:
-            raise AnalysisError(f"{q}: inner loop variable for the frequency not found")
-        fr = unparse(d[0].targets[0])
-        full = [unparse(a) for a in i.iter.args] in (["len(frequencies)"], ["frequencies.size"], ["0", "len(frequencies)"], ["0", "frequencies.size"])
-        if not full:
-            ck.violation("C02.R3", q, norm_key(i),
-                         f"the inner loop `{norm_key(i, 80)}` does not visit every frequency for every centre frequency: samples inside a window "
-                         f"can be skipped (the result depends on the other centre frequencies / their order)", loc=f.loc(i))
-    else:
-        raise AnalysisError(f"{q}: inner loop is not over all frequencies (enumerate(frequencies) / range(len(frequencies)))")
+    F, FC, B = sp.Symbol("f", positive=True), sp.Symbol("fc", positive=True), sp.Symbol("b", positive=True)
+    CI, FI = sp.Symbol("c_index", integer=True), sp.Symbol("f_index", integer=True)
+    o = _single_loop(f.node.body, "centre frequencies", q)
+    i = _single_loop(o.body, "frequencies", q)
+    # ---- prelude (limits, constants)
+    pre = PathTable(prog, f.module, env={"bandwidth": B}).leaves(f.node.body)
+    pre = [l for l in pre if id(o) in l.snaps]
+    if len(pre) != 1:
+        raise AnalysisError(f"{q}: the loop over the centre frequencies is reached on {len(pre)} paths")
+    env = dict(pre[0].snaps[id(o)][0])
+    for nm in assigned_names(o):
+        env.pop(nm, None)
+    fc_index, full_o = _header(o, "fcs", q, env, CI, FC)
+    if not full_o:
+        ck.violation("C02.R3", q, norm_key(o), f"the outer loop `{norm_key(o, 80)}` does not visit every centre frequency", loc=f.loc(o))
+    # ---- accumulators: names added to inside the inner loop
+    accs = sorted({st.target.id for st in ast.walk(i) if isinstance(st, ast.AugAssign) and isinstance(st.target, ast.Name)
+                   and any(st.target.id == t.id for s2 in o.body if isinstance(s2, ast.Assign) for t in s2.targets if isinstance(t, ast.Name))})
+    # ---- outer decision table
+    outer = PathTable(prog, f.module, env=env).leaves(o.body)
+    with_loop = [l for l in outer if id(i) in l.snaps]
+    without = [l for l in outer if id(i) not in l.snaps]
+    if not with_loop:
+        raise AnalysisError(f"{q}: the loop over the frequencies is not reached")
+    SPECJ = None
+    # ---- inner loop
+    ienv = dict(with_loop[0].snaps[id(i)][0])
+    for nm in assigned_names(i):
+        ienv.pop(nm, None)
+    f_index, full_i = _header(i, "frequencies", q, ienv, FI, F)
+    if not full_i:
+        ck.violation("C02.R3", q, norm_key(i),
+                     f"the inner loop `{norm_key(i, 80)}` does not visit every frequency for every centre frequency: samples inside a window "
+                     f"can be skipped (the result depends on the other centre frequencies / their order)", loc=f.loc(i))
+    SPECJ = Translator(env=ienv).tr(ast.parse(f"spectrum[:, {f_index}]", mode="eval").body)
+    inner = PathTable(prog, f.module, accumulators=accs, env=ienv).leaves(i.body)
+    # which accumulator is the weighted sum?
+    prod = sorted({e[1] for l in inner for e in l.events if e[0].startswith("acc") and e[2].has(SPECJ)})
+    wsum = [a for a in accs if a not in prod]
+    if len(prod) != 1 or len(wsum) != 1:
+        ck.violation("C02.R1", q, "paired accumulation",
+                     f"accumulators found in the inner loop: weighted sums {prod}, weight sums {wsum} - the result would not be the weight-normalised average", loc=f.loc(i))
+        return
+    P, Wn = prod[0], wsum[0]
     # ------------------------------------------------------------------ R1
-    acc_p = [st for st in ast.walk(i) if isinstance(st, ast.AugAssign) and isinstance(st.op, ast.Add) and unparse(st.target) == "sumproduct"]
-    acc_w = [st for st in ast.walk(i) if isinstance(st, ast.AugAssign) and isinstance(st.op, ast.Add) and unparse(st.target) == "sumwindow"]
-
-    def classify(n):
-        st = cfg.ast_of(n)
-        if cfg.kind(n) != "stmt":
-            return None
-        if st in acc_p:
-            return 0
-        if st in acc_w:
-            return 1
-        if isinstance(st, (ast.Assign, ast.AugAssign)):
-            tg = st.targets if isinstance(st, ast.Assign) else [st.target]
-            if any(unparse(t) in ("sumproduct", "sumwindow") for t in tg):
-                return 2
-        return None
-    res = events_per_iteration(cfg, i, classify, 3)
-    wname = None
-    same_w = False
-    if len(acc_p) == 1 and len(acc_w) == 1:
-        v = acc_p[0].value
-        if isinstance(v, ast.BinOp) and isinstance(v.op, ast.Mult):
-            sides = [v.left, v.right]
-            spec = [s for s in sides if isinstance(s, ast.Subscript) and unparse(s) == f"spectrum[:, {f_index}]"]
-            w = [s for s in sides if s not in spec]
-            if len(spec) == 1 and len(w) == 1:
-                wname = unparse(w[0])
-                same_w = unparse(acc_w[0].value) == wname
-    if res <= {(0, 0, 0), (1, 1, 0)} and (1, 1, 0) in res and same_w:
-        ck.ok("C02.R1", q, f"sumproduct += {wname}*spectrum[:, {f_index}]; sumwindow += {wname}", detail=f"iteration outcomes {sorted(res)}")
+    acc_leaves = []
+    bad = []
+    outcomes = set()
+    for l in inner:
+        ep = [e for e in l.events if e[1] == P and e[0].startswith("acc")]
+        ew = [e for e in l.events if e[1] == Wn and e[0].startswith("acc")]
+        other = [e for e in l.events if e[0] == "store" or (e[0].startswith("acc") and e[1] not in (P, Wn))]
+        outcomes.add((len(ep), len(ew), len(other)))
+        if l.exit in ("break", "return", "raise"):
+            ck.violation("C02.R3", q, "inner loop exits early", f"the loop over the frequencies can stop early ({l.exit})", loc=f.loc(i))
+        if not ep and not ew and not other:
+            continue
+        if len(ep) == 1 and len(ew) == 1 and not other and ep[0][0] == "acc+" and ew[0][0] == "acc+":
+            W = ew[0][2]
+            if equal(ep[0][2], W * SPECJ):
+                acc_leaves.append((l, W))
+                continue
+            bad.append(f"sumproduct += {ep[0][2]} but sumwindow += {W}")
+        else:
+            bad.append(f"(weighted sum, weight sum, other stores) updated x ({len(ep)}, {len(ew)}, {len(other)})")
+    if not bad and acc_leaves:
+        ck.ok("C02.R1", q, f"{P} += W*spectrum[:, {f_index}]; {Wn} += W with the same W on every path",
+              detail=f"iteration outcomes {sorted(outcomes)} over {len(inner)} paths")
     else:
         ck.violation("C02.R1", q, "paired accumulation",
-                     f"per frequency the accumulators are updated (sumproduct, sumwindow, other) x {sorted(res)}; same weight on both: {same_w} - "
+                     f"per frequency the accumulators are not updated together with one weight: {bad[:2] or 'no accumulating path'} - "
                      f"the result would not be the weight-normalised average", loc=f.loc(i))
+    if not any(l.exit in ("break", "return", "raise") for l in inner):
+        ck.ok("C02.R3", q, "inner loop visits every frequency", nontrivial=False)
     # ------------------------------------------------------------------ R2
-    inits = {unparse(st.targets[0]): st for st in o.body if isinstance(st, ast.Assign) and unparse(st.targets[0]) in ("sumproduct", "sumwindow")}
-    rows = "nrows" if "nrows" in unparse(f.node) else "nspectra"
-    good = set(inits) == {"sumproduct", "sumwindow"} and unparse(inits["sumproduct"].value) == f"np.zeros({rows})" and unparse(inits["sumwindow"].value) == "0" \
-        and all(st.lineno < i.lineno for st in inits.values())
-    if good:
+    snap = with_loop[0].snaps[id(i)][0]
+    init_ok = all(nm in snap and snap[nm] == 0 for nm in (P, Wn)) and all(
+        any(isinstance(st, ast.Assign) and any(isinstance(t, ast.Name) and t.id == nm for t in st.targets) for st in o.body) for nm in (P, Wn))
+    if init_ok:
         ck.ok("C02.R2", q, "accumulators reset for every centre frequency")
     else:
-        ck.violation("C02.R2", q, "accumulator initialisation", "sumproduct/sumwindow are not reset to zero for every centre frequency", loc=f.loc(o))
-    fin = [st for st in o.body if isinstance(st, ast.If) and st.lineno > i.end_lineno]
-    good = False
-    if len(fin) == 1 and unparse(fin[0].test) == "sumwindow > 0":
-        a = [unparse(x.targets[0]) + " = " + unparse(x.value) for x in fin[0].body if isinstance(x, ast.Assign)]
-        e = [unparse(x.targets[0]) + " = " + unparse(x.value) for x in fin[0].orelse if isinstance(x, ast.Assign)]
-        good = a == [f"smoothed_spectrum[:, {fc_index}] = sumproduct / sumwindow"] and e == [f"smoothed_spectrum[:, {fc_index}] = 0"]
-    if good:
-        ck.ok("C02.R2", q, f"column {fc_index} = sumproduct / sumwindow if sumwindow > 0 else 0")
+        ck.violation("C02.R2", q, "accumulator initialisation", f"{P}/{Wn} are not reset to zero for every centre frequency", loc=f.loc(o))
+    Ps, Ws = sp.Symbol(P, real=True), sp.Symbol(Wn, real=True)
+    cases = []
+    col_name = None
+    col_ok = True
+    for l in with_loop:
+        n0 = l.snaps[id(i)][1]
+        post = Leaf(l.conds[n0:], l.env, l.events)
+        lits = literals(post)
+        stores = [e for e in l.events if e[0] == "store"]
+        if len(stores) != 1:
+            col_ok = False
+            continue
+        tgt = stores[0][3].targets[0]
+        col_ok = col_ok and isinstance(tgt, ast.Subscript) and isinstance(tgt.value, ast.Name) \
+            and Translator(env=env)._index(tgt.slice) == Translator(env=env)._index(ast.parse(f"x[:, {fc_index}]", mode="eval").body.slice)
+        col_name = tgt.value.id if isinstance(tgt, ast.Subscript) and isinstance(tgt.value, ast.Name) else col_name
+        cases += flatten_cases(lits, stores[0][2])
+    want_cases = [([sp.Gt(Ws, 0)], Ps / Ws), ([sp.Ge(0, Ws)], sp.Integer(0))]
+    vals_ok = col_ok and len(cases) == 2 and all(any(equal(v, wv) for _l, v in cases) for _wl, wv in want_cases)
+    conds_ok = vals_ok and all(any(equal(v, wv) and same_literal_set(lt, wl) for lt, v in cases) for wl, wv in want_cases)
+    if conds_ok:
+        ck.ok("C02.R2", q, f"column {fc_index} = {P} / {Wn} if {Wn} > 0 else 0")
+    elif vals_ok:
+        raise AnalysisError(f"{q}: normalisation guard not recognised: {[(str(l_), str(v)) for l_, v in cases]}")
     else:
-        ck.violation("C02.R2", q, "normalisation", "the column stored is not sumproduct/sumwindow (0 when no sample falls in the window)", loc=f.loc(o))
-    small = [st for st in o.body if isinstance(st, ast.If) and st.lineno < i.lineno]
-    good = len(small) == 1 and unparse(small[0].test) == f"{fc} < 1e-06" and any(isinstance(b, ast.Continue) for b in small[0].body) \
-        and any(isinstance(b, ast.Assign) and unparse(b.targets[0]) == f"smoothed_spectrum[:, {fc_index}]" and unparse(b.value) == "0" for b in small[0].body)
-    if good:
-        ck.ok("C02.R2", q, f"{fc} < 1e-6 -> 0", nontrivial=False)
+        ck.violation("C02.R2", q, "normalisation",
+                     f"the column stored is not {P}/{Wn} (0 when no sample falls in the window): {[(str(l_), str(v)) for l_, v in cases][:3]}", loc=f.loc(o))
+    small = False
+    for l in without:
+        stores = [e for e in l.events if e[0] == "store"]
+        if same_literal_set(literals(l), [sp.Gt(sp.Rational(1, 1000000), FC)]) and len(stores) == 1 and stores[0][2] == 0 and l.exit in ("continue", "fall"):
+            small = True
+    if small:
+        ck.ok("C02.R2", q, "fc < 1e-6 -> 0", nontrivial=False)
     else:
         ck.violation("C02.R2", q, "zero centre frequency", "centre frequencies below 1e-6 are not set to 0", loc=f.loc(o))
     rets = [r for r in own_nodes(f.node) if isinstance(r, ast.Return)]
-    alloc = [st for st in f.node.body if isinstance(st, ast.Assign) and unparse(st.targets[0]) == "smoothed_spectrum"]
-    if len(rets) == 1 and unparse(rets[0].value) == "smoothed_spectrum" and len(alloc) == 1:
+    if len(rets) == 1 and isinstance(rets[0].value, ast.Name) and rets[0].value.id == col_name and rets[0] in f.node.body:
         ck.ok("C02.R2", q, "returns the filled array", nontrivial=False)
     else:
         ck.violation("C02.R2", q, "return", "does not return the filled array", loc=f.loc())
@@ -161,7 +216,7 @@ def _kernel(ck: Checker, prog: Program, name: str):
     bad_reads = []
     for n in spec_reads:
         p = parent_of(n)
-        if isinstance(p, ast.Subscript) and unparse(p) == f"spectrum[:, {f_index}]":
+        if isinstance(p, ast.Subscript) and unparse(p) == f"spectrum[:, {f_index}]" and any(x is p for x in ast.walk(i)):
             continue
         if isinstance(p, ast.Attribute) and p.attr == "shape":
             continue
@@ -170,21 +225,15 @@ def _kernel(ck: Checker, prog: Program, name: str):
         ck.ok("C02.R3", q, f"spectrum read only as spectrum[:, {f_index}] (and its shape)")
     for p in bad_reads:
         ck.violation("C02.R3", q, norm_key(p), f"the spectrum is read as `{unparse(p)}`: rows or frequencies are mixed", loc=f.loc(p))
-    if wname:
-        srcs, stmts = value_sources(f, acc_w[0].value, acc_w[0])
-        uses_spec = "spectrum" in srcs or any("spectrum[" in unparse(s) for s in stmts if isinstance(s, (ast.Assign, ast.AugAssign)) and unparse(s.targets[0] if isinstance(s, ast.Assign) else s.target) == wname)
-        if uses_spec:
-            ck.violation("C02.R3", q, "weight depends on the spectrum", "the weight is computed from the spectrum: the operator is not linear", loc=f.loc(i))
-        else:
-            ck.ok("C02.R3", q, "weight independent of the spectrum", detail=f"sources {sorted(srcs)}")
-    if any(isinstance(x, (ast.Break, ast.Return)) for x in ast.walk(i)):
-        ck.violation("C02.R3", q, "inner loop exits early", "the loop over the frequencies can stop early (break/return)", loc=f.loc(i))
-    else:
-        ck.ok("C02.R3", q, "inner loop visits every frequency", nontrivial=False)
-    for loop, what, ign in ((o, "centre frequencies", {"smoothed_spectrum"}), (i, "frequencies", {"sumproduct", "sumwindow", "smoothed_spectrum"})):
+    SPEC = sp.Symbol("spectrum", real=True)
+    dep = [str(W) for _l, W in acc_leaves if W.has(SPEC) or W.has(SPECJ)] + \
+          [str(c) for l, _W in acc_leaves for c, _t in l.conds if c.has(SPEC) or c.has(SPECJ)]
+    if dep:
+        ck.violation("C02.R3", q, "weight depends on the spectrum", f"the weight or the support is computed from the spectrum ({dep[0]}): the operator is not linear", loc=f.loc(i))
+    elif acc_leaves:
+        ck.ok("C02.R3", q, "weight independent of the spectrum")
+    for loop, what, ign in ((o, "centre frequencies", {col_name or "smoothed_spectrum"}), (i, "frequencies", {P, Wn, col_name or "smoothed_spectrum"})):
         carried = loop_carried(f, loop, ignore=ign)
-        if loop is o:
-            carried = [c for c in carried if c[0] not in ("sumproduct", "sumwindow") or not any(x is c[2] for x in ast.walk(i))] if False else carried
         if not carried:
             ck.ok("C02.R3", q, f"nothing carried between {what}")
         for (nm, use, d) in carried:
@@ -192,39 +241,12 @@ def _kernel(ck: Checker, prog: Program, name: str):
                          f"`{nm}` (set by `{norm_key(d, 60)}`) is read at line {use.lineno} in a later iteration over the {what}: "
                          f"a column would depend on the other centre frequencies / their order", loc=f.loc(use))
     # ------------------------------------------------------------------ R4
-    _kernel_formula(ck, f, name, o, i, fr, fc, wname)
+    if acc_leaves:
+        _kernel_formula(ck, f, name, i, acc_leaves, F, FC, B)
 
 
-def _kernel_formula(ck, f, name, o, i, fr, fc, wname):
+def _kernel_formula(ck, f, name, i, acc_leaves, F, FC, B):
     q = f.qualname
-    F, FC, B = sp.Symbol("f", positive=True), sp.Symbol("fc", positive=True), sp.Symbol("b", positive=True)
-    env = {fr: F, fc: FC, "bandwidth": B}
-    T = Translator(env=env)
-    forward_substitute([st for st in f.node.body if isinstance(st, ast.Assign) and st.lineno < o.lineno and isinstance(st.targets[0], ast.Name)
-                        and unparse(st.targets[0]) not in ("smoothed_spectrum",) and not isinstance(st.value, ast.Attribute) and "shape" not in unparse(st.value)
-                        and "size" not in unparse(st.value) and "np.empty" not in unparse(st.value)], T)
-    forward_substitute([st for st in i.body if isinstance(st, ast.Assign)], T)
-    sel = [st for st in i.body if isinstance(st, ast.If)]
-    if len(sel) != 1:
-        raise AnalysisError(f"{q}: selection `if` in the inner loop not found")
-    s = sel[0]
-    # branches: skip / (centre) / weight
-    chain = []
-    cur = s
-    while isinstance(cur, ast.If):
-        chain.append((cur.test, cur.body))
-        if len(cur.orelse) == 1 and isinstance(cur.orelse[0], ast.If):
-            cur = cur.orelse[0]
-        else:
-            chain.append((None, cur.orelse))
-            break
-    if not any(isinstance(b, ast.Continue) for b in chain[0][1]):
-        raise AnalysisError(f"{q}: first branch of the selection does not skip")
-    skip = T.tr(chain[0][0])
-    wbody = chain[-1][1]
-    TW = Translator(env=dict(T.env))
-    forward_substitute([st for st in wbody if isinstance(st, (ast.Assign, ast.AugAssign))], TW)
-    W = TW.env.get(wname) if wname else None
     x_ko = B * sp.log(F / FC) / sp.log(10)
     a_p = sp.pi * 280 / (2 * 151)
     x_pz = a_p * (F - FC) / B
@@ -236,89 +258,156 @@ def _kernel_formula(ck, f, name, o, i, fr, fc, wname):
         "linear_triangular": 1 - sp.Abs(F - FC) * (2 / B),
         "log_triangular": 1 - sp.Abs(sp.log(F / FC) / sp.log(10)) * (2 / B),
     }[name]
-    if W is not None and equal(W, want):
+    eps = sp.Rational(1, 1000000)
+    at_centre = sp.Gt(eps, sp.Abs(F - FC))
+    off_centre = sp.Ge(sp.Abs(F - FC), eps)
+    general, centre = [], []
+    for l, W in acc_leaves:
+        lits = literals(l)
+        if any(same_rel(x, at_centre) for x in lits):
+            centre.append((l, W, [x for x in lits if not same_rel(x, at_centre)]))
+        else:
+            general.append((l, W, [x for x in lits if not same_rel(x, off_centre)]))
+    Wg = [W for _l, W, _x in general]
+    if general and all(equal(W, want) for W in Wg):
         ck.ok("C02.R4", q, f"weight = {want}")
     else:
-        ck.violation("C02.R4", q, "kernel weight", f"the weight is {W}; the published kernel is {want}", loc=f.loc(s))
-    # centre branch
-    if len(chain) == 3:
-        ctest, cbody = chain[1]
-        okc = unparse(ctest) == f"np.abs({fr} - {fc}) < 1e-06" and [unparse(x.value) for x in cbody if isinstance(x, ast.Assign)] in (["1.0"], ["1"])
-        if okc:
+        ck.violation("C02.R4", q, "kernel weight", f"the weight is {Wg[0] if Wg else None}; the published kernel is {want}", loc=f.loc(i))
+    if centre:
+        if all(W == 1 for _l, W, _x in centre):
             ck.ok("C02.R4", q, "weight 1 at the centre frequency", nontrivial=False)
         else:
-            ck.violation("C02.R4", q, "centre weight", "the weight at f = fc is not 1", loc=f.loc(s))
-    # support: collect relations of the skip test besides f < 1e-6
-    rels = list(skip.args) if isinstance(skip, sp.Or) else [skip]
-    sup = []
+            ck.violation("C02.R4", q, "centre weight", "the weight at f = fc is not 1", loc=f.loc(i))
+    elif name in ("konno_and_ohmachi", "parzen"):
+        ck.violation("C02.R4", q, "centre weight", "sin(x)/x is evaluated at f = fc (0/0): the weight at the centre is not 1", loc=f.loc(i))
+    # support: the literals shared by every accumulating path
+    groups = [x for _l, _W, x in general + centre]
+    sup = list(groups[0])
+    for g in groups[1:]:
+        if not same_literal_set(sup, g):
+            raise AnalysisError(f"{q}: accumulating paths have different supports: {sup} vs {g}")
     zero_guard = False
-    for r in rels:
-        if isinstance(r, sp.Lt) and equal(r.lhs, F) and r.rhs == sp.Rational(1, 1000000):
+    ratio, diff = F / FC, F - FC
+    X = {"konno_and_ohmachi": ratio, "log_rectangular": ratio, "log_triangular": ratio, "parzen": diff}.get(name, sp.Abs(diff))
+    up = lo = None
+    strict = []
+    rest = []
+    for r in sup:
+        if not isinstance(r, (sp.Ge, sp.Gt)):
+            rest.append(r)
+            continue
+        if equal(r.lhs, F) and r.rhs == eps:
             zero_guard = True
+        elif equal(r.rhs, X) and up is None:
+            up = r.lhs
+            if isinstance(r, sp.Gt):
+                strict.append(r)
+        elif equal(r.lhs, X) and lo is None:
+            lo = r.rhs
+            if isinstance(r, sp.Gt):
+                strict.append(r)
         else:
-            sup.append(r)
+            rest.append(r)
     if zero_guard:
         ck.ok("C02.R4", q, "0 Hz bin excluded (f < 1e-6)", nontrivial=False)
     else:
-        ck.violation("C02.R4", q, "0 Hz bin", "samples at f < 1e-6 are not excluded", loc=f.loc(s))
-    ratio, diff = F / FC, F - FC
+        ck.violation("C02.R4", q, "0 Hz bin", "samples at f < 1e-6 are not excluded", loc=f.loc(i))
+    if rest:
+        raise AnalysisError(f"{q}: support condition(s) not recognised: {rest}")
     sym_ok = False
     edge = None
-    detail = str(sup)
+    detail = f"{lo} <= {X} <= {up}"
     if name in ("konno_and_ohmachi", "log_rectangular", "log_triangular"):
-        up = [r.rhs for r in sup if isinstance(r, sp.Gt) and equal(r.lhs, ratio)] + [r.lhs for r in sup if isinstance(r, sp.Lt) and equal(r.rhs, ratio)]
-        lo = [r.rhs for r in sup if isinstance(r, sp.Lt) and equal(r.lhs, ratio)] + [r.lhs for r in sup if isinstance(r, sp.Gt) and equal(r.rhs, ratio)]
-        if len(up) == 1 and len(lo) == 1 and len(sup) == 2:
-            sym_ok = equal(sp.simplify(up[0] * lo[0]), sp.Integer(1))
-            edge = {F: up[0] * FC}
+        if up is not None and lo is not None:
             expect_up = {"konno_and_ohmachi": sp.Integer(10) ** (3 / B), "log_rectangular": sp.Integer(10) ** (B / 2), "log_triangular": sp.Integer(10) ** (B / 2)}[name]
-            sym_ok = sym_ok and equal(up[0], expect_up)
-            detail = f"{lo[0]} <= f/fc <= {up[0]}"
+            sym_ok = equal(sp.simplify(up * lo), sp.Integer(1)) and equal(up, expect_up)
+            edge = {F: up * FC}
     elif name == "parzen":
-        up = [r.rhs for r in sup if isinstance(r, sp.Gt) and equal(r.lhs, diff)]
-        lo = [r.rhs for r in sup if isinstance(r, sp.Lt) and equal(r.lhs, diff)]
-        if len(up) == 1 and len(lo) == 1 and len(sup) == 2:
-            sym_ok = equal(up[0] + lo[0], sp.Integer(0)) and equal(up[0], sp.sqrt(6) * a_p / B)
-            detail = f"{lo[0]} <= f-fc <= {up[0]}"
+        if up is not None and lo is not None:
+            sym_ok = equal(up + lo, sp.Integer(0)) and equal(up, sp.sqrt(6) * a_p / B)
     else:
-        ab = [r for r in sup if isinstance(r, sp.Gt) and equal(r.lhs, sp.Abs(diff))]
-        if len(ab) == 1 and len(sup) == 1:
-            sym_ok = equal(ab[0].rhs, B / 2)
+        if up is not None and lo is None:
+            sym_ok = equal(up, B / 2)
             edge = {F: FC + B / 2}
-            detail = f"|f-fc| <= {ab[0].rhs}"
-    if sym_ok:
-        ck.ok("C02.R4", q, f"support {detail}", detail="symmetric about the centre frequency")
+            detail = f"|f-fc| <= {up}"
+    if sym_ok and not strict:
+        ck.ok("C02.R4", q, f"support {detail}", detail="closed and symmetric about the centre frequency")
+    elif sym_ok:
+        ck.violation("C02.R4", q, "support limits", f"samples exactly on the window edge are excluded ({strict[0]}): not the published closed support", loc=f.loc(i))
     else:
-        ck.violation("C02.R4", q, "support limits", f"the window support is {detail}: not the symmetric published support", loc=f.loc(s))
-    if name.endswith("triangular") and W is not None and edge is not None:
-        at_edge = sp.simplify(W.subs(edge))
+        ck.violation("C02.R4", q, "support limits", f"the window support is {detail}: not the symmetric published support", loc=f.loc(i))
+    if name.endswith("triangular") and general and edge is not None:
+        at_edge = sp.simplify(general[0][1].subs(edge))
         if at_edge == 0:
             ck.ok("C02.R4", q, "triangular weight is 0 at the support edge (non-negative inside)")
         else:
-            ck.violation("C02.R4", q, "triangular edge weight", f"the weight at the support edge is {at_edge}, not 0 (negative or discontinuous weights)", loc=f.loc(s))
+            ck.violation("C02.R4", q, "triangular edge weight", f"the weight at the support edge is {at_edge}, not 0 (negative or discontinuous weights)", loc=f.loc(i))
 
 
 def _sg(ck: Checker, prog: Program):
     f = prog.func("smoothing.savitzky_and_golay")
     q = f.qualname
+    h = prog.func("smoothing._savitzky_and_golay")
     m = sp.Symbol("m", positive=True, integer=True)
-    T = Translator(env={"m": m})
-    # coefficient expression and normaliser
-    loops = [st for st in f.node.body if isinstance(st, ast.For)]
-    if len(loops) != 1:
-        raise AnalysisError(f"{q}: coefficient loop not found")
-    lp = loops[0]
-    ivar = unparse(lp.target.elts[1]) if isinstance(lp.target, ast.Tuple) else None
     isym = sp.Symbol("i", integer=True)
-    T.env[ivar] = isym
-    cst = [st for st in lp.body if isinstance(st, ast.Assign) and unparse(st.targets[0]).startswith("coefficients[")]
-    nst = [st for st in f.node.body if isinstance(st, ast.Assign) and unparse(st.targets[0]) == "normalization_coefficient"]
-    if len(cst) != 1 or len(nst) != 1:
-        raise AnalysisError(f"{q}: coefficient / normalisation expressions not found")
-    c = T.tr(cst[0].value)
-    N = T.tr(nst[0].value)
-    c = c.replace(sp.Abs, lambda a: a) if c.has(sp.Abs) and all(arg.is_nonnegative or arg == isym ** 2 for arg in [x.args[0] for x in c.atoms(sp.Abs)]) else c
     p = sp.Symbol("p", positive=True, integer=True)
+    rets = [r for r in own_nodes(f.node) if isinstance(r, ast.Return)]
+    if len(rets) != 1 or not isinstance(rets[0].value, ast.Call):
+        raise AnalysisError(f"{q}: single `return helper(...)` not found")
+    ret, call = rets[0], rets[0].value
+    r = prog.resolve_name(f.module, call.func.id) if isinstance(call.func, ast.Name) else None
+    if not r or r[0] != "func" or r[1] is not h or len(h.params) != 4:
+        ck.violation("C02.R5", q, "helper call", f"the compiled helper _savitzky_and_golay is not what is returned (`{norm_key(ret, 80)}`)", loc=f.loc(ret))
+        return
+    bound = bind_call(call, h.params)
+    if set(bound) != set(h.params):
+        ck.violation("C02.R5", q, "helper call", f"the compiled helper is not called with all of {h.params}", loc=f.loc(ret))
+        return
+    res = Resolver(prog, f, inline=True)
+    BW = Translator().sym("bandwidth")
+    to_m = {sp.Function("int")(BW): m, BW: m}
+
+    def val(node, at):
+        return canon(res.value(node, at)).xreplace(to_m)
+    # ---- where the coefficient table comes from
+    carg = bound[h.params[2]]
+    if not isinstance(carg, ast.Name):
+        raise AnalysisError(f"{q}: coefficient argument `{unparse(carg)}` is not a local")
+    defs = res.rd.defs_at(carg.id, ret)
+    dstmts = [res.rd.cfg.ast_of(d) for d in defs if d != -1]
+    elt = lo = hi = at = None
+    ivar = None
+    for d in dstmts:
+        if not isinstance(d, ast.Assign):
+            continue
+        comps = [n for n in ast.walk(d.value) if isinstance(n, (ast.ListComp, ast.GeneratorExp))]
+        if len(comps) == 1 and len(comps[0].generators) == 1 and not comps[0].generators[0].ifs:
+            g = comps[0].generators[0]
+            outer_ok = d.value is comps[0] or (isinstance(d.value, ast.Call) and call_name(d.value) in ("array", "asarray", "fromiter") and d.value.args and d.value.args[0] is comps[0])
+            if outer_ok and isinstance(g.target, ast.Name) and isinstance(g.iter, ast.Call) and call_name(g.iter) == "range":
+                elt, ivar, at, rng = comps[0].elt, g.target.id, d, g.iter
+    if elt is None:
+        for lp in [st for st in f.node.body if isinstance(st, ast.For)]:
+            st = [x for x in lp.body if isinstance(x, ast.Assign) and isinstance(x.targets[0], ast.Subscript) and unparse(x.targets[0].value) == carg.id]
+            if len(st) != 1:
+                continue
+            it = lp.iter
+            if isinstance(it, ast.Call) and call_name(it) == "enumerate" and isinstance(it.args[0], ast.Call) and call_name(it.args[0]) == "range" \
+                    and isinstance(lp.target, ast.Tuple) and unparse(st[0].targets[0].slice) == unparse(lp.target.elts[0]):
+                elt, ivar, at, rng = st[0].value, unparse(lp.target.elts[1]), st[0], it.args[0]
+    if elt is None:
+        raise AnalysisError(f"{q}: construction of the coefficient table `{carg.id}` not recognised")
+    rargs = [val(a, at) for a in rng.args]
+    if len(rargs) == 1:
+        rargs = [sp.Integer(0)] + rargs
+    if len(rargs) != 2:
+        raise AnalysisError(f"{q}: coefficient range with a step")
+    lo, hi = rargs
+    IV = Translator().sym(ivar)
+    c = val(elt, at).xreplace({IV: isym})
+    N = val(bound[h.params[3]], ret)
+    if c.has(sp.Abs) and all(a.args[0].is_nonnegative or a.args[0] == isym ** 2 for a in c.atoms(sp.Abs)):
+        c = c.replace(sp.Abs, lambda a: a)
     cm = c.subs(m, 2 * p + 1)
     Nm = N.subs(m, 2 * p + 1)
     ids = []
@@ -328,34 +417,38 @@ def _sg(ck: Checker, prog: Program):
     if all(okk for _k, okk, _s in ids):
         ck.ok("C02.R5", q, "moment identities: sum c = N, sum c i^k = 0 (k=1,2,3) for every odd m", detail=f"c_i = {c}; N = {N}")
     else:
-        bad = [(k, s) for k, okk, s in ids if not okk]
+        bad = [(k, s_) for k, okk, s_ in ids if not okk]
         ck.violation("C02.R5", q, "Savitzky-Golay coefficients",
                      f"the coefficients c_i = {c} with normaliser {N} do not reproduce cubic polynomials: " +
-                     "; ".join(f"sum c i^{k} = {s}" for k, s in bad), loc=f.loc(cst[0]))
-    # coefficients are stored for i = -(nterms-1) .. 0 in order
-    it_ok = unparse(lp.iter) == "enumerate(range(-(nterms - 1), 1))" and unparse(cst[0].targets[0]) == f"coefficients[{unparse(lp.target.elts[0])}]"
-    nt = [st for st in f.node.body if isinstance(st, ast.Assign) and unparse(st.targets[0]) == "nterms"]
-    nt_ok = len(nt) == 1 and equal(Translator(env={"m": m}).tr(nt[0].value).subs(m, 2 * p + 1), p + 1)
-    if it_ok and nt_ok:
-        ck.ok("C02.R5", q, "coefficients[k] holds c_i for i = -(nterms-1)+k, nterms = (m-1)/2 + 1")
+                     "; ".join(f"sum c i^{k} = {s_}" for k, s_ in bad), loc=f.loc(at))
+    lo_m, hi_m = sp.simplify(lo.subs(m, 2 * p + 1)), sp.simplify(hi.subs(m, 2 * p + 1))
+    if sp.simplify(lo_m + p) == 0 and hi_m == 1:
+        ck.ok("C02.R5", q, "coefficient table holds c_i for i = -(m-1)/2 .. 0 in ascending order", detail=f"range({lo}, {hi})")
     else:
-        ck.violation("C02.R5", q, "coefficient table", "the coefficient table is not filled for i = -(nterms-1)..0 with nterms = (m-1)//2 + 1", loc=f.loc(lp))
-    # refusals
-    tests = {unparse(st.test): st for st in f.node.body if isinstance(st, ast.If) and any(isinstance(b, ast.Raise) for b in st.body)}
-    if "m % 2 != 1" in tests and any("np.min(diff) - np.max(diff)" in t for t in tests):
+        ck.violation("C02.R5", q, "coefficient table", f"the coefficient table is filled for i in range({lo}, {hi}), not i = -(m-1)//2 .. 0", loc=f.loc(at))
+    # ---- refusals: reaching the helper implies an odd bandwidth and a uniform grid
+    TE = Translator()
+    odd = TE.tr(ast.parse("int(bandwidth) % 2 != 1", mode="eval").body)
+    uni = TE.tr(ast.parse("np.abs(np.min(np.diff(frequencies)) - np.max(np.diff(frequencies))) > 1e-06", mode="eval").body)
+    leaves = PathTable(prog, f.module).leaves(f.node.body)
+    succ = [l for l in leaves if l.exit == "return"]
+    need = {"non-odd bandwidth": negate(odd), "non-uniform grid": negate(uni)}
+    missing = [k for k, rel in need.items() if not all(any(same_rel(x, rel) for x in literals(l)) for l in succ)]
+    raising = [l for l in leaves if l.exit == "raise"]
+    if succ and not missing and len(raising) >= 2:
         ck.ok("C02.R5", q, "non-odd bandwidth and non-uniform grids raise")
     else:
-        ck.violation("C02.R5", q, "refusals", f"refusals found: {sorted(tests)}", loc=f.loc())
-    nf = [st for st in f.node.body if isinstance(st, ast.Assign) and unparse(st.targets[0]) == "nfcs"]
-    if len(nf) == 1 and unparse(nf[0].value) == "np.round((fcs - np.min(frequencies)) / df).astype(int)":
-        ck.ok("C02.R5", q, norm_key(nf[0]), detail="centre frequency -> nearest grid index")
+        ck.violation("C02.R5", q, "refusals", f"the helper is reached without refusing: {missing or 'no refusal found'}", loc=f.loc())
+    got = val(bound[h.params[1]], ret)
+    want_idx = canon(res.expect("np.round((fcs - np.min(frequencies)) / np.diff(frequencies)[0]).astype(int)"))
+    if equal(got, want_idx):
+        ck.ok("C02.R5", q, "centre frequency -> nearest grid index", detail=str(got))
     else:
-        ck.violation("C02.R5", q, "grid index", "centre frequencies are not mapped to the nearest grid index", loc=f.loc())
-    rets = [r for r in own_nodes(f.node) if isinstance(r, ast.Return)]
-    if len(rets) == 1 and unparse(rets[0].value) == "_savitzky_and_golay(spectrum, nfcs, coefficients, normalization_coefficient)":
-        ck.ok("C02.R5", q, norm_key(rets[0]), nontrivial=False)
+        ck.violation("C02.R5", q, "grid index", f"centre frequencies are not mapped to the nearest grid index (index = {got})", loc=f.loc())
+    if val(bound[h.params[0]], ret) == Translator().sym("spectrum"):
+        ck.ok("C02.R5", q, "helper receives (spectrum, nearest indices, coefficients, normaliser)", nontrivial=False)
     else:
-        ck.violation("C02.R5", q, "helper call", "the compiled helper is not called with (spectrum, nfcs, coefficients, normalization_coefficient)", loc=f.loc())
+        ck.violation("C02.R5", q, "helper call", "the compiled helper does not receive the spectrum itself", loc=f.loc())
     # ---- helper
     h = prog.func("smoothing._savitzky_and_golay")
     hq = h.qualname
